@@ -31,6 +31,11 @@ CLAIMED["C16"] = ("lockset analysis with foreign locks (E3) + predicated path en
          "go/ssa model; sync.Once/Mutex/channel-close semantics assumed; grpc.ClientConn not analysed",
          "DESIGN.md §3 C16")
 
+CLAIMED["C13"] = ("typestate by predicated path enumeration with loop unrolling (E4) + who-may-call over synchronous call chains (E5b) + lockset (E3)",
+         "Static, all-paths for manager.Manager: session typestate of handleUpdates (Reset exactly once after a failed Recv, Connect once before the first update, no return without Reset), callbacks only on the monitor goroutine's synchronous chain, close(finished) deferred with silence afterwards and ctx.Done as the only loop exit, Remove = cancel->wait->forget under the lock, Add refuses duplicates before any effect and starts one monitor, backoff never stops and the timer is re-armed, lock discipline incl. no Manager.mu on the monitor chain before finished. Together these give 'no callback after Remove returns' and the session discipline for every schedule as necessary structural conditions; timing/backoff behaviour is not decided.",
+         "go/ssa model; loop of handleUpdates unrolled to 2 (quick) / 3 (thorough) iterations; context, channel and mutex semantics assumed; grpc stream behaviour not analysed",
+         "DESIGN.md §3 C13")
+
 NA_REASON = {}
 DEFAULT_NA = "check not built yet in this round (static rules designed in DESIGN.md section 3); not claimed until the rule runs"
 
